@@ -1074,7 +1074,7 @@ def run(ctx):
         for st, m in zip(steps, marks):
             op = st['op']
             ans = out[base + m['op']]
-            mstatus = 'ok' if ans.startswith('ok') else 'err:' + ans.split(' ')[1]
+            mstatus = 'ok' if ans.startswith('ok') else 'err:' + (ans.split(' ') + ['refused'])[1]
             ctx.traces_validated += 1
             if mstatus != st['status']:
                 dis(ctx, 'C10 op status', {'case': case, 'op': op, 'impl': st['status'], 'model': ans})
